@@ -152,7 +152,22 @@ def main():
         except Exception as e:
             o["error"] = "%s: %s" % (type(e).__name__, str(e)[:200])
         extra.append(o)
-    print("@@RESULT@@" + json.dumps({"results": res, "custom": extra}))
+    # the three-in-one loader against the three single loaders
+    combos = []
+    for (name, tv, dv, gv) in req.get("combos", []):
+        o = {"combo": [name, tv, dv, gv]}
+        try:
+            th, de, da = library.load_material(name, tv, dv, gv)
+            ref_th, ref_da = library.load_thermal(name, tv), library.load_damage(name, gv)
+            Ts = [650.0, 900.0, 1100.0]
+            o["thermal_same"] = type(th) is type(ref_th) and [float(th.conductivity(T)) for T in Ts] == [float(ref_th.conductivity(T)) for T in Ts] \
+                and [float(th.diffusivity(T)) for T in Ts] == [float(ref_th.diffusivity(T)) for T in Ts]
+            o["deformation_same"] = (de.modelname == dv) and os.path.basename(de.xmlfile) == name + ".xml"
+            o["damage_same"] = type(da) is type(ref_da) and getattr(da, "data", None) == getattr(ref_da, "data", None)
+        except Exception as e:
+            o["error"] = "%s: %s" % (type(e).__name__, str(e)[:200])
+        combos.append(o)
+    print("@@RESULT@@" + json.dumps({"results": res, "custom": extra, "combos": combos}))
 
 
 if __name__ == "__main__":
